@@ -8,6 +8,7 @@ import Driver.Dict
 import Driver.SM
 import Driver.Conn
 import Driver.Alias
+import Driver.Sctp
 /-!
   Driver — reads correspondence lines `domain op args… => impl-output` on stdin and prints,
   per line, tab-separated: index, agree|DISAGREE|BADLINE, Spec verdicts (comma separated or
@@ -94,6 +95,12 @@ def handle (st : St) (idx : Nat) (line : String) : St × String :=
       (match (kv rest "b").bind fromHex with
        | some b => (st, emit idx impl (judgeRetry ((kvNat rest "r").getD 0) (parseOutcomes ((kv rest "outs").getD "-")) b implToks))
        | none => bad)
+    | "sctp" :: "demux" :: rest =>
+      let fin := if kv rest "fin" = some "err" then Fin.err else Fin.eof
+      (st, emit idx impl (judgeSctpDemux dict fin ((kv rest "chunks").getD "-") implToks))
+    | "sctp" :: "serve" :: rest =>
+      let fin := if kv rest "fin" = some "err" then Fin.err else Fin.eof
+      (st, emit idx impl (judgeSctpServe dict fin ((kv rest "cn").getD "none") ((kv rest "chunks").getD "-") implToks))
     | "alias" :: "leaf" :: rest =>
       (match (kv rest "p").bind (fun x => fromHex (x.drop 1).toString) with
        | some p => (st, emit idx impl (judgeAliasLeaf ((kvNat rest "t").getD 0) p implToks))
